@@ -96,6 +96,19 @@ Theorem c11_hint_regardless : forall k local proxy cb outcome,
   ir_hint (on_init k local proxy cb outcome) = parse_hint (dict_get (okey keepalive_hints_key) proxy).
 Proof. exact init_hint_regardless. Qed.
 
+(* "all Proxy parameter maps ... including the reserved keys": the value of the reserved hint key is arbitrary text.
+   The init reply never depends on it (c11_table does not mention it); a value that float() certainly rejects —
+   empty, or containing an ASCII character that occurs in no float literal — is discarded *)
+Theorem c11_malformed_hint_discarded : forall s,
+  surely_not_float s = true -> parse_hint (Some (Some s)) = HMalformed.
+Proof. exact malformed_hint_discarded. Qed.
+
+Example c11_malformed_hint_examples :
+  parse_hint (Some (Some (bs "abc"))) = HMalformed /\ parse_hint (Some (Some [])) = HMalformed /\
+  parse_hint (Some (Some (bs "0x10"))) = HMalformed /\ parse_hint (Some (Some (bs "1,5"))) = HMalformed /\
+  parse_hint (Some (Some (bs "1500"))) = HValue 1500 /\ parse_hint (Some (Some (bs "2e3"))) = HUnmodelled.
+Proof. exact malformed_hint_examples. Qed.
+
 (* non-vacuity *)
 Example c11_example :
   let proxy := dict_of_pairs [(Some (bs "ARI.version"), Some (bs "1.10.2")); (Some (bs "a"), Some (bs "1"));
@@ -128,3 +141,5 @@ Example c11_only_provider_typed :
 Proof. vm_compute. repeat split; reflexivity. Qed.
 
 Print Assumptions c11_only_provider_typed.
+Print Assumptions c11_malformed_hint_discarded.
+Print Assumptions c11_malformed_hint_examples.
